@@ -51,7 +51,7 @@ func c10Release(op *StoreOp, ns string) *release.Release {
 		Info: &release.Info{
 			FirstDeployed: helmtime.Time{Time: t0},
 			LastDeployed:  helmtime.Time{Time: t0.Add(time.Duration(c) * time.Hour)},
-			Description:   fmt.Sprintf("desc %d ünï \"quoted\" \n newline", c),
+			Description:   fmt.Sprintf("desc %d ünï \"quoted\" \n newline%s", c, []string{"", " 安装完成 ✓", " — Ж", ""}[c%4]),
 			Status:        release.Status(op.Status),
 			Notes:         strings.Repeat("notes ", c%7),
 		},
